@@ -58,6 +58,39 @@ theorem fails_under_other_key (W0 : World) (st : SState) (k : Key)
     (h : ∀ e ∈ st.valid, e.1 ≠ k.pub) : (sstep W0 st (.verify k)).2 ≠ "ok" :=
   other_key_fails W0 st k h
 
+/-- C04 (in-place change of nested content, Metablock): a write through an element of the payload
+    (first word of a link's command / name of a layout's first step) is a change of the signed
+    content and of nothing else: the signed bytes become those of the poked payload (which is the
+    old payload when there is no such element), the signatures, the acceptance table and the token
+    counter stay as they are. -/
+theorem poke_changes_signed_bytes_or_nothing (W0 : World) (st : SState) (p : Payload) (sg : TVal) (s : Str)
+    (hmd : st.md = .legacy p sg) :
+    (sstep W0 st (.poke s)).1.md = .legacy (pokeP p s) sg ∧
+    signedBytes (sstep W0 st (.poke s)).1.md = canonPayload (pokeP p s) ∧
+    (sstep W0 st (.poke s)).1.valid = st.valid ∧
+    (sstep W0 st (.poke s)).1.n = st.n ∧
+    (sstep W0 st (.poke s)).2 = "ok" := by
+  rw [sstep_poke_legacy W0 st p sg s hmd]
+  exact ⟨rfl, rfl, rfl, rfl, rfl⟩
+
+/-- C04: a signature made before an in-place change of nested content is stale afterwards — if every
+    signature of the key in the table was made over bytes other than the signed bytes after the
+    poke, verification with that key does not succeed (both wrappers; corollary of
+    `fails_after_content_change` at the state after the poke, whose table is the one before it). -/
+theorem stale_signature_fails_after_poke (W0 : World) (st : SState) (s : Str) (k : Key)
+    (h : ∀ e ∈ st.valid, e.1 = k.pub → signedBytes (sstep W0 st (.poke s)).1.md ≠ some e.2.1) :
+    (sstep W0 (sstep W0 st (.poke s)).1 (.verify k)).2 ≠ "ok" := by
+  apply fails_after_content_change
+  rw [(sstep_poke_valid_n W0 st s).1]
+  exact h
+
+/-- non-vacuity (`pokeDemoLink cmd`, Proofs/Sign.lean, is a link whose command is `[cmd]`): the
+    poke rewrites the command `["make"]` to `["x"]`, and the canonical bytes of the two payloads differ -/
+example : pokeP (pokeDemoLink (lit% "make")) (lit% "x") = pokeDemoLink (lit% "x") := rfl
+
+example : canonPayload (pokeDemoLink (lit% "make")) ≠
+    canonPayload (pokeP (pokeDemoLink (lit% "make")) (lit% "x")) := by decide
+
 /-- no operation of a history crashes -/
 theorem history_never_panics (W0 : World) (st : SState) (op : SOp) : (sstep W0 st op).2 ≠ "panic" :=
   sstep_no_panic W0 st op
